@@ -134,6 +134,20 @@ def column_names(ck, rule):
     v, pa = merged_return(ck, fn)
     w = where(fn, pa.node)
     file_p = V(fn.call_params()[0].name)
+    # a parameter that every caller binds to self.<attr> stands for that attribute (the helper made static, the prefix handed in)
+    from ..callgraph import bind_args as _bind
+    for prm in fn.call_params()[1:]:
+        vals = set()
+        for s0 in ck.ctx.cg.sites_calling(fn):
+            if s0.caller.module.is_test:
+                continue
+            b, exact = _bind(fn.call_params(), s0.node)
+            a0 = b.get(prm.name)
+            vals.add(ast.unparse(a0) if a0 is not None and exact else None)
+        if len(vals) == 1 and None not in vals:
+            txt = vals.pop()
+            if txt.startswith("self.") and txt.count(".") == 1:
+                v = T.substitute(v, {V(prm.name): self_attr(txt.split(".")[1])})
     # [1:] of split(whitespace, strip(first line of dropwhile(not startswith(prefix), file)))
     ok_slice = v[0] == "slice" and v[2] == C(1) and v[3] == T.NONE and v[4] == T.NONE
     ck.judge(ok_slice, rule, short(fn) + ":drop-prefix-token", w, "the first token (the '#h' marker) is dropped, all others kept",
